@@ -5,6 +5,8 @@
 //!   vcheck list
 mod engine;
 #[cfg(feature = "full")]
+mod forge;
+#[cfg(feature = "full")]
 mod layouts;
 #[cfg(feature = "full")]
 mod mutate;
